@@ -16,7 +16,7 @@ import (
 )
 
 // opaque types are compared by identity only: their internals legitimately change
-var opaquePkgs = []string{"sync.", "regexp.", "log.", "os.", "io.", "time.Location", "reflect.rtype", "*reflect.rtype", "sync/atomic."}
+var opaquePkgs = []string{"px.MemLoader", "sync.", "regexp.", "log.", "os.", "io.", "time.Location", "reflect.rtype", "*reflect.rtype", "sync/atomic."}
 
 func isOpaque(t reflect.Type) bool {
 	s := t.String()
@@ -153,12 +153,14 @@ func (w *walker) walk(path string, v reflect.Value) {
 		}
 		key := visit{v.Pointer(), t}
 		if id, ok := w.seen[key]; ok {
-			w.leaf(path, fmt.Sprintf("->#%d", id))
+			_ = id
+			w.leaf(path, fmt.Sprintf("->@%x", v.Pointer()))
 			return
 		}
 		id := len(w.seen) + 1
 		w.seen[key] = id
-		w.leaf(path, fmt.Sprintf("&#%d", id))
+		// identity by address: stable between two snapshots of the same object graph in one process
+		w.leaf(path, fmt.Sprintf("&@%x", v.Pointer()))
 		w.walk(path+"<"+t.String()+">", v.Elem())
 	case reflect.Interface:
 		if v.IsNil() {
